@@ -51,3 +51,7 @@ pub mod verif_hooks_http {
         ))
     }
 }
+
+/// Verification hooks for C11 (feature `verif-hooks`, add-only).
+#[cfg(feature = "verif-hooks")]
+pub mod verif_hooks_c11;
